@@ -286,40 +286,44 @@ func validatingFns(w *World) (map[*ssa.Function]bool, map[*ssa.Function]string) 
 				if !isRet || !good {
 					return
 				}
-				v := ret.Results[0]
-				// (a) a known non-nil error on this edge
-				if factHolds(in, func(cond ssa.Value, truth bool) bool {
-					is, pol := nonNilTest(cond, v)
-					return is && pol == truth
-				}) {
-					return
-				}
-				if c, isCall := v.(*ssa.Call); isCall {
-					if n := calleeName(c); n == "errors.New" || n == "fmt.Errorf" {
+				phiLeaves(ret.Results[0], in, func(v ssa.Value, fact factOracle) {
+					if !good {
 						return
 					}
-					if sc := staticCallee(c); sc != nil && ok[sc] {
-						// destination passed through
-						passed := false
-						for _, a := range c.Call.Args {
-							if a == dest {
-								passed = true
-							}
-						}
-						if passed {
+					// (a) a known non-nil error on this edge
+					if fact(func(cond ssa.Value, truth bool) bool {
+						is, pol := nonNilTest(cond, v)
+						return is && pol == truth
+					}) {
+						return
+					}
+					if c, isCall := v.(*ssa.Call); isCall {
+						if n := calleeName(c); n == "errors.New" || n == "fmt.Errorf" {
 							return
 						}
-						good, reason = false, "calls "+FuncName(sc)+" on another destination"
+						if sc := staticCallee(c); sc != nil && ok[sc] {
+							// destination passed through
+							passed := false
+							for _, a := range c.Call.Args {
+								if a == dest {
+									passed = true
+								}
+							}
+							if passed {
+								return
+							}
+							good, reason = false, "calls "+FuncName(sc)+" on another destination"
+							return
+						}
+						good, reason = false, "returns the result of "+calleeName(c)+" which does not validate"
 						return
 					}
-					good, reason = false, "returns the result of "+calleeName(c)+" which does not validate"
-					return
-				}
-				if isNilConst(v) {
-					good, reason = false, "returns nil without validating the bound value"
-					return
-				}
-				good, reason = false, "returns an error value that is neither known non-nil nor the result of validation"
+					if isNilConst(v) {
+						good, reason = false, "returns nil without validating the bound value"
+						return
+					}
+					good, reason = false, "returns an error value that is neither known non-nil nor the result of validation"
+				})
 			})
 			if good {
 				ok[f] = true
